@@ -7,6 +7,7 @@ import (
 	"math"
 	"math/bits"
 	"sort"
+	"strconv"
 	"strings"
 )
 
@@ -137,12 +138,20 @@ func NewCtx() *Ctx {
 }
 
 func (c *Ctx) key(t *Term) string {
-	var sb strings.Builder
-	fmt.Fprintf(&sb, "%d|%d.%d|%d|%s|%d.%d", t.Op, t.S.K, t.S.W, t.V, t.Name, t.I, t.J)
+	b := make([]byte, 0, 48+len(t.Name))
+	b = append(b, byte(t.Op), byte(t.S.K), byte(t.S.W))
+	b = strconv.AppendUint(b, t.V, 36)
+	b = append(b, '|')
+	b = append(b, t.Name...)
+	b = append(b, '|')
+	b = strconv.AppendInt(b, int64(t.I), 36)
+	b = append(b, '.')
+	b = strconv.AppendInt(b, int64(t.J), 36)
 	for _, a := range t.Args {
-		fmt.Fprintf(&sb, "|%d", a.id)
+		b = append(b, '|')
+		b = strconv.AppendInt(b, int64(a.id), 36)
 	}
-	return sb.String()
+	return string(b)
 }
 
 func (c *Ctx) mk(t *Term) *Term {
@@ -506,6 +515,13 @@ func (c *Ctx) bin(op Op, a, b *Term) *Term {
 		if b.IsConst() && b.V == 1 {
 			return a
 		}
+		if op == OBVUDiv && b.IsConst() && b.V != 0 && b.V&(b.V-1) == 0 {
+			return c.bin(OBVLshr, a, c.BV(uint64(bits.TrailingZeros64(b.V)), w))
+		}
+	case OBVURem:
+		if b.IsConst() && b.V != 0 && b.V&(b.V-1) == 0 {
+			return c.bin(OBVAnd, a, c.BV(b.V-1, w))
+		}
 	}
 	return c.mk(&Term{Op: op, S: a.S, Args: []*Term{a, b}})
 }
@@ -627,6 +643,21 @@ func (c *Ctx) cmp(op Op, a, b *Term) *Term {
 	if a == b {
 		return c.Bool(op == OULE || op == OSLE)
 	}
+	// cheap unsigned range reasoning against constants
+	if op == OULT || op == OULE {
+		if b.IsConst() {
+			ub := c.ubound(a, 6)
+			if (op == OULT && ub < b.V) || (op == OULE && ub <= b.V) {
+				return c.True
+			}
+		}
+		if a.IsConst() {
+			ub := c.ubound(b, 6)
+			if (op == OULT && ub <= a.V) || (op == OULE && ub < a.V) {
+				return c.False
+			}
+		}
+	}
 	switch op {
 	case OULT:
 		if b.IsConst() && b.V == 0 {
@@ -681,6 +712,47 @@ func (c *Ctx) cmp(op Op, a, b *Term) *Term {
 		return c.cmp(nop, c.BV(av, in.S.W), in)
 	}
 	return c.mk(&Term{Op: op, S: SBool, Args: []*Term{a, b}})
+}
+
+// ubound returns an upper bound of the unsigned value of t.
+func (c *Ctx) ubound(t *Term, depth int) uint64 {
+	m := mask(t.S.W)
+	if t.IsConst() {
+		return t.V
+	}
+	if depth == 0 {
+		return m
+	}
+	switch t.Op {
+	case OZExt:
+		return c.ubound(t.Args[0], depth-1)
+	case OBVAnd:
+		x, y := c.ubound(t.Args[0], depth-1), c.ubound(t.Args[1], depth-1)
+		if x < y {
+			return x
+		}
+		return y
+	case OBVURem:
+		if t.Args[1].IsConst() && t.Args[1].V > 0 {
+			return t.Args[1].V - 1
+		}
+	case OBVLshr:
+		if t.Args[1].IsConst() && t.Args[1].V < 64 {
+			return c.ubound(t.Args[0], depth-1) >> t.Args[1].V
+		}
+	case OIte:
+		x, y := c.ubound(t.Args[1], depth-1), c.ubound(t.Args[2], depth-1)
+		if x > y {
+			return x
+		}
+		return y
+	case OExtract:
+		ub := c.ubound(t.Args[0], depth-1)
+		if t.J == 0 && ub <= m {
+			return ub
+		}
+	}
+	return m
 }
 
 func (c *Ctx) ULT(a, b *Term) *Term { return c.cmp(OULT, a, b) }
